@@ -253,7 +253,7 @@ class SPayInt(Sym):
 
     def bit_msb(self, k):
         """Bool term: MSB-first bit k of the payload (caller guarantees 0<=k<nbits)."""
-        return self.view.arr.bit(8 * self.view.lo + k)
+        return self.view.arr.bit(z3.simplify(8 * self.view.lo + k))
 
 
 class SShifted(Sym):
